@@ -81,6 +81,14 @@ Section C15.
       forall i, (i < n)%nat -> sum (fun j => rmul (a i j) (x j)) n = b i.
   Proof. exact (solve_partial A Wt rO rI radd rmul rsub ropp rinv isz skipz ofZ absw w0 wgt wge wmul wrecip Rth Hinv Hskip). Qed.
 
+  (* la.solve / LU.solve with a 2-D right-hand side (n x m): after the repair of finding C15-5 every column of the
+     result solves the system for that column of b -- PARTIAL like C15_solve_partial (decomposition as hypothesis) *)
+  Theorem C15_solve_2d_partial : forall n m (a b y : nat -> nat -> A),
+      (forall lu idx par, ludcmp RE n a = Ok (lu, idx, par) -> decomposes A rO rI radd rmul n a lu idx) ->
+      solve2 RE n m a b = Ok y ->
+      forall i j, (i < n)%nat -> (j < m)%nat -> sum (fun k => rmul (a i k) (y k j)) n = b i j.
+  Proof. exact (solve2_partial A Wt rO rI radd rmul rsub ropp rinv isz skipz ofZ absw w0 wgt wge wmul wrecip Rth Hinv Hskip). Qed.
+
   Theorem C15_invab_partial : forall n m (a b y : nat -> nat -> A),
       (forall lu idx par, ludcmp RE n a = Ok (lu, idx, par) -> decomposes A rO rI radd rmul n a lu idx) ->
       invab RE n m a b = Ok y ->
@@ -108,6 +116,7 @@ Print Assumptions C15_matmul_nd_def.
 Print Assumptions C15_dot_scalar_def.
 Print Assumptions C15_lubksb.
 Print Assumptions C15_solve_partial.
+Print Assumptions C15_solve_2d_partial.
 Print Assumptions C15_invab_partial.
 Print Assumptions C15_inv_partial.
 Print Assumptions C15_det_partial.
@@ -148,13 +157,15 @@ Theorem C15_args_unchanged : forall (L : Elt) n m (s : store L) pa pb fresh,
     (forall s' d, det_at L n s pa fresh = Ok (s', d) ->
                   (forall p, (p < fresh)%nat -> s' p = s p) /\ det L n (copy_arr L (s pa)) = Ok d) /\
     (forall s' py, inv_at L n s pa fresh = Ok (s', py) -> forall p, (p < fresh)%nat -> s' p = s p) /\
-    (forall s' py, invab_at L n m s pa pb fresh = Ok (s', py) -> forall p, (p < fresh)%nat -> s' p = s p).
+    (forall s' py, invab_at L n m s pa pb fresh = Ok (s', py) -> forall p, (p < fresh)%nat -> s' p = s p) /\
+    (forall s' px, solve2_at L n m s pa pb fresh = Ok (s', px) -> forall p, (p < fresh)%nat -> s' p = s p).
 Proof.
-  intros L n m s pa pb fresh Ha Hb. split; [|split; [|split]].
+  intros L n m s pa pb fresh Ha Hb. split; [|split; [|split; [|split]]].
   - intros s' px H. exact (solve_at_frame L n s pa pb fresh s' px Ha Hb H).
   - intros s' d H. exact (det_at_frame L n s pa fresh s' d Ha H).
   - intros s' py H. exact (inv_at_frame L n s pa fresh s' py Ha H).
   - intros s' py H. exact (invab_at_frame L n m s pa pb fresh s' py Ha Hb H).
+  - intros s' px H. exact (solve2_at_frame L n m s pa pb fresh s' px Ha Hb H).
 Qed.
 Print Assumptions C15_args_unchanged.
 
